@@ -8,6 +8,7 @@ package verifsim
 // Update returns. Only what SQLite made durable survives.
 
 import (
+	"sync"
 	"bufio"
 	"bytes"
 	"context"
@@ -159,6 +160,26 @@ func crashChild() {
 		fail("witness.New: %v", err)
 	}
 	witRef = wit
+	// storage errors short of a crash (plan faults "mf:<n>": the n-th driver operation of this process after start-up fails
+	// with the given error): what the witness acknowledges in spite of them must be as durable as anything else
+	mf := map[int64]string{}
+	for _, f := range plan.Faults {
+		var n int64
+		if _, err := fmt.Sscanf(f.At, "mf:%d", &n); err == nil {
+			mf[n] = f.Kind
+		}
+	}
+	if len(mf) > 0 {
+		var mfN int64
+		mainDrvFault = func(op, arg string) error {
+			mfN++
+			if k, ok := mf[mfN]; ok {
+				fmt.Fprintf(out, "FAULT %d %s %s\n", mfN, op, k)
+				return injected(k)
+			}
+			return nil
+		}
+	}
 	if trace {
 		fmt.Fprintf(out, "TRACE init drv %d vfs %d\n", drvN, VFSOpCount())
 	}
@@ -175,7 +196,11 @@ func crashChild() {
 		if err == nil {
 			tracked[req.LogID] = parseStored(res)
 		}
-		fmt.Fprintf(out, "ACK %d %s %s\n", i, cls, base64.StdEncoding.EncodeToString(res))
+		enc := base64.StdEncoding.EncodeToString(res)
+		if enc == "" {
+			enc = "-"
+		}
+		fmt.Fprintf(out, "ACK %d %s %s\n", i, cls, enc)
 		if trace {
 			fmt.Fprintf(out, "TRACE op %d drv %d vfs %d\n", i, drvN, VFSOpCount())
 		}
@@ -209,6 +234,7 @@ type childResult struct {
 	InitVFS int64
 	Stderr  string
 	Exit    int
+	Faults  int64 // injected driver errors (not crashes) that fired in this child
 }
 
 func runChild(planPath, dbPath string, from, to int, crash string, trace bool) (*childResult, error) {
@@ -244,8 +270,13 @@ func runChild(planPath, dbPath string, from, to int, crash string, trace bool) (
 		switch {
 		case len(f) >= 4 && f[0] == "ACK":
 			i, _ := strconv.Atoi(f[1])
-			b, _ := base64.StdEncoding.DecodeString(f[3])
+			var b []byte
+			if f[3] != "-" {
+				b, _ = base64.StdEncoding.DecodeString(f[3])
+			}
 			cr.Acks = append(cr.Acks, childAck{Op: i, Class: f[2], Out: b})
+		case len(f) >= 4 && f[0] == "FAULT":
+			cr.Faults++
 		case len(f) >= 3 && f[0] == "READ":
 			i, _ := strconv.Atoi(f[1])
 			b, _ := base64.StdEncoding.DecodeString(f[2])
@@ -298,6 +329,24 @@ func realRestart(bin, db string, w *World) (map[string][]byte, map[string]int, e
 	return nil, nil, lastErr
 }
 
+// lockedBuf is a bytes.Buffer that may be read while exec's copier goroutine writes to it.
+type lockedBuf struct {
+	mu sync.Mutex
+	b  bytes.Buffer
+}
+
+func (l *lockedBuf) Write(p []byte) (int, error) {
+	l.mu.Lock()
+	defer l.mu.Unlock()
+	return l.b.Write(p)
+}
+
+func (l *lockedBuf) String() string {
+	l.mu.Lock()
+	defer l.mu.Unlock()
+	return l.b.String()
+}
+
 func realRestartOnce(bin, db string, w *World) (map[string][]byte, map[string]int, bool, error) {
 	ln, err := net.Listen("tcp", "127.0.0.1:0")
 	if err != nil {
@@ -305,7 +354,7 @@ func realRestartOnce(bin, db string, w *World) (map[string][]byte, map[string]in
 	}
 	addr := ln.Addr().String()
 	ln.Close()
-	var se bytes.Buffer
+	var se lockedBuf
 	cmd := exec.Command(bin, "--listen", addr, "--metrics_listen", "", "--db_file", db, "--private_key", w.WitKeys[0].Key.SignerString(),
 		"--poll_interval", "0", "--logtostderr")
 	cmd.Stderr = &se
@@ -322,10 +371,14 @@ func realRestartOnce(bin, db string, w *World) (map[string][]byte, map[string]in
 	hc := &http.Client{Timeout: 5 * time.Second}
 	up := false
 	for i := 0; i < 1000 && !up; i++ {
-		if c, err := net.DialTimeout("tcp", addr, 100*time.Millisecond); err == nil {
-			c.Close()
-			up = true
-			break
+		// "up" means OUR process holds the port: it logs this line only after its net.Listen succeeded. A connection that succeeds
+		// on its own proves nothing - another worker's binary may have taken the port between our probe and our start
+		if strings.Contains(se.String(), "HTTP server goroutine started") {
+			if c, err := net.DialTimeout("tcp", addr, 100*time.Millisecond); err == nil {
+				c.Close()
+				up = true
+				break
+			}
 		}
 		select {
 		case <-exited:
